@@ -525,7 +525,7 @@ impl G {
     }
     /// a few lines following one of the deadline-order idioms
     fn idiom(&mut self, out: &mut Vec<String>) {
-        match self.r.below(14) {
+        match self.r.below(16) {
             0 => {
                 // a timeout that does not fire, followed by a longer sleep (cancelled earlier than live)
                 let d = self.dur() + self.unit;
@@ -614,6 +614,45 @@ impl G {
             9 => {
                 out.push(format!("timeout {} select sleep {} sleep {}", self.dur(), self.dur(), self.dur()));
                 out.push(format!("sleep {}", self.dur()));
+            }
+            11 | 12 => {
+                // twins: two or three named Sleeps of this task with EQUAL deadlines, registered back to back,
+                // one of them cancelled (reset / dropped) before the deadline, another one still awaited
+                let d = self.r.range(2, 6) * self.unit;
+                let three = self.r.chance(1, 3);
+                let names: Vec<&str> = if three { vec!["p", "q", "r"] } else { vec!["p", "q"] };
+                for n in &names {
+                    out.push(format!("new {n} {d}"));
+                }
+                if self.r.chance(1, 2) {
+                    for n in &names {
+                        out.push(format!("poll {n}"));
+                    }
+                    out.push(format!("sleep {}", self.r.range(0, 1) * self.unit));
+                } else {
+                    // all polled in one biased select!, a short sleep wins
+                    let mut e = format!("sleep {}", self.unit);
+                    for n in names.iter().rev() {
+                        e = format!("select await {n} {e}");
+                    }
+                    out.push(e);
+                }
+                // cancel the first registered (mostly) or a later one (symmetric case)
+                let victim = if self.r.chance(2, 3) { 0 } else { self.r.range(1, names.len() as u64 - 1) as usize };
+                match self.r.below(4) {
+                    0 => out.push(format!("drop {}", names[victim])),
+                    1 => out.push(format!("reset {} {}", names[victim], 10 * self.unit)),
+                    2 => out.push(format!("reset {} {}", names[victim], self.unit / 2)),
+                    _ => out.push(format!("resetu {} {}", names[victim], 0)),
+                }
+                for (i, n) in names.iter().enumerate() {
+                    if i != victim {
+                        out.push(format!("await {n}"));
+                    }
+                }
+                if self.r.chance(1, 2) {
+                    out.push(format!("await {}", names[victim]));
+                }
             }
             10 => {
                 // already reached deadlines
